@@ -15,10 +15,11 @@ import (
 
 // genAll runs the remaining extractions (added per property as the models grow).
 func genAll() {
-	factPackageState()
-	factTerminalOpsClose()
-	genHtmlVocab()
-	genSwitchTables()
+	guarded("facts:package-state", factPackageState)
+	guarded("facts:terminal-ops", factTerminalOpsClose)
+	guarded("HtmlVocab.lean", genHtmlVocab)
+	guarded("DetectTable.lean", genDetectTable)
+	guarded("FilterTable.lean", genFilterTable)
 }
 
 // leanStrBytes renders a Go string as a Lean list of its bytes (the models use List Nat).
@@ -140,27 +141,69 @@ func genHtmlVocab() {
 	write("HtmlVocab.lean", b.String())
 }
 
-// genSwitchTables: string switch tables other models depend on.
-func genSwitchTables() {
+// switchWithCase finds, in the library files of one package directory, the first string
+// switch (file name order, then position) one of whose cases is the literal lit. The
+// tables are located by what they dispatch on, not by the name of the function they
+// are in, so renaming or splitting that function does not lose them.
+func switchWithCase(dir, lit string) []swCase {
+	files := parseDir(dir)
+	names := make([]string, 0, len(files))
+	for n := range files {
+		names = append(names, n)
+	}
+	sort.Strings(names)
+	for _, n := range names {
+		var hit *ast.SwitchStmt
+		ast.Inspect(files[n], func(x ast.Node) bool {
+			sw, ok := x.(*ast.SwitchStmt)
+			if !ok || hit != nil {
+				return hit == nil
+			}
+			for _, c := range casesOf(sw) {
+				for _, l := range c.Lits {
+					if l == lit {
+						hit = sw
+						return false
+					}
+				}
+			}
+			return true
+		})
+		if hit != nil {
+			return casesOf(hit)
+		}
+	}
+	return nil
+}
+
+// genDetectTable: the extension switch of package format.
+func genDetectTable() {
+	cs := switchWithCase("format", ".pdf")
+	if cs == nil {
+		fatal("format: no switch with a case \".pdf\"")
+	}
 	var b strings.Builder
 	b.WriteString(header + "namespace Tabula.Gen.Tables\n\n")
-	fd := findFunc(parseFile("format/detect.go"), "", "Detect")
-	if fd == nil {
-		fatal("format.Detect not found")
-	}
-	b.WriteString(leanSwitch("detectExtCases", switchCases(fd, 0)))
+	b.WriteString(leanSwitch("detectExtCases", cs))
 	b.WriteString("\n")
-	b.WriteString(leanSwitchBytes("detectExtCasesB", switchCases(fd, 0)))
-	b.WriteString("\n")
-	fs := findFunc(parseFile("core/stream.go"), "", "decodeWithFilter")
-	if fs == nil {
-		fatal("core.decodeWithFilter not found")
-	}
-	b.WriteString(leanSwitch("filterNameCases", switchCases(fs, 0)))
-	b.WriteString("\n")
-	b.WriteString(leanSwitchBytes("filterNameCasesB", switchCases(fs, 0)))
+	b.WriteString(leanSwitchBytes("detectExtCasesB", cs))
 	b.WriteString("\nend Tabula.Gen.Tables\n")
-	write("Tables.lean", b.String())
+	write("DetectTable.lean", b.String())
+}
+
+// genFilterTable: the filter-name switch of package core.
+func genFilterTable() {
+	cs := switchWithCase("core", "FlateDecode")
+	if cs == nil {
+		fatal("core: no switch with a case \"FlateDecode\"")
+	}
+	var b strings.Builder
+	b.WriteString(header + "namespace Tabula.Gen.Tables\n\n")
+	b.WriteString(leanSwitch("filterNameCases", cs))
+	b.WriteString("\n")
+	b.WriteString(leanSwitchBytes("filterNameCasesB", cs))
+	b.WriteString("\nend Tabula.Gen.Tables\n")
+	write("FilterTable.lean", b.String())
 }
 
 // libraryPackages are the directories of tabula's non-test library code.
